@@ -1,5 +1,6 @@
 CONSTANTS
   FieldNums <- NoSeq
+  PairNums <- NoSeq
   CountNums <- NoSeq
   MsgTypes <- NoSeq
   AdminTypes = {}
@@ -21,8 +22,5 @@ CONSTANTS
   Dev = {"hash_identity"}
 INIT HInit
 NEXT HNext
-INVARIANT SolvedCollides
-INVARIANT Valid
-INVARIANT OwnTraits
 INVARIANT DistinctDefsDistinctTraits
 CHECK_DEADLOCK FALSE
